@@ -53,3 +53,11 @@ Theorem C13_to_empty_stack : forall (Q G : Type) (P : pda Q G), pda_wf P ->
   forall w, acc_empty (to_empty_stack P) w <-> acc_final P w.
 Proof. exact (@to_empty_stack_wf). Qed.
 Print Assumptions C13_to_empty_stack.
+
+(* CFG.to_pda().to_cfg(): the grammar that comes back generates the language of the original *)
+From PFL Require Import Proofs.PdaRoundTrip.
+Theorem C13_cfg_pda_cfg_round_trip : forall (Vr : Type) (E : EqDec Vr) (Gm : cfg Vr),
+  (forall A body a, In (A, body) (g_prods Gm) -> In (T a) body -> In a (g_terms Gm)) ->
+  forall w, LangG (pda_to_cfg (cfg_to_pda Gm)) w <-> LangG Gm w.
+Proof. exact (@cfg_pda_cfg). Qed.
+Print Assumptions C13_cfg_pda_cfg_round_trip.
